@@ -93,6 +93,7 @@ func ruleCheckValue(c *Ctx) {
 		c.Check(R, "code39.getChecksum/value-source", fn.Pos(), ok, "checksumValue(content) of its own argument", fmt.Sprint(len(calls)))
 	}
 
+	c.Doc("K5-CONTENT", "Content returns the stored content; encoders store the text they were given (EAN: the completed code; Code 39/93: the prepared string)")
 	const R2 = "V2-CHECKSUM-STORAGE"
 	c.Doc(R2, "utils.New1DCodeIntCheckSum* store the checksum parameter in the checksum field and CheckSum() returns that field")
 	c.Floor(R2, 3)
